@@ -92,7 +92,7 @@ func (c *SecretLoader) handleUpdate(obj interface{}) {
 		klog.ErrorS(err, "configloader: config unmarshal error", "loader", c.Name())
 		return
 	}
-	c.cache = newSecret
+	c.setCache(newSecret)
 }
 
 func (c *SecretLoader) unmarshalSecret(data map[string][]byte) (*configCache, error) {
